@@ -1,4 +1,5 @@
 """C02 — Heat-bath diagonal update yields the same equilibrium as the default update (partial: see design_notes/C02.md)."""
+from checks import pure_fns
 LEAN_TARGETS = ["QmcProps.C02", "drv_c02"]
 BINS = ["c02"]
 
@@ -25,6 +26,7 @@ RULE = ("tables: random sequences of make_*interaction (1-4 variables; 3-/4-vari
 
 
 def main(ck):
+    pure_fns.run(ck)   # source->Lean translation of pure functions, re-proved equal to the hand model
     if ck.lake_build(LEAN_TARGETS):
         ck.audit("QmcProps.C02", ["Qmc.C02." + t for t in THEOREMS])
     if ck.cargo_build(BINS):
